@@ -201,7 +201,7 @@ impl<R: RuleType> Error<R> {
         let line = if visualize_ws {
             visualize_whitespace(line_of)
         } else {
-            line_of.replace(&['\r', '\n'][..], "")
+            strip_line_ending(line_of)
         };
         Error {
             variant,
@@ -270,12 +270,15 @@ impl<R: RuleType> Error<R> {
         let mut line_iter = span.lines();
         let sl = line_iter.next().unwrap_or("");
         let mut chars = span.as_str().chars();
+        let start = span.start_pos();
         let visualize_ws = matches!(chars.next(), Some('\n') | Some('\r'))
-            || matches!(chars.last(), Some('\n') | Some('\r'));
+            || matches!(chars.last(), Some('\n') | Some('\r'))
+            // an empty span at a line break is shown like a position there
+            || (span.as_str().is_empty() && (start.match_char('\n') || start.match_char('\r')));
         let start_line = if visualize_ws {
             visualize_whitespace(sl)
         } else {
-            sl.to_owned().replace(&['\r', '\n'][..], "")
+            strip_line_ending(sl)
         };
         let ll = line_iter.last();
         let continued_line = if visualize_ws {
@@ -742,6 +745,16 @@ impl<R: RuleType> fmt::Display for ErrorVariant<R> {
             ErrorVariant::CustomError { .. } => write!(f, "{}", self.message()),
         }
     }
+}
+
+/// Removes the line ending and shows any other carriage return as a visible symbol, so that
+/// the columns of the rendered line are the columns that `line_col` reports.
+fn strip_line_ending(line: &str) -> String {
+    let line = match line.strip_suffix('\n') {
+        Some(rest) => rest.strip_suffix('\r').unwrap_or(rest),
+        None => line,
+    };
+    line.replace('\r', "␍")
 }
 
 fn visualize_whitespace(input: &str) -> String {
